@@ -780,3 +780,11 @@ CONTROLS['C14'] += [
       expr_replace('core', 'PrefetchDataset.__iter__', 'catch_filter_exception.__name__', 'self.catch_filter_exception.__name__'),
       'name-taken-of-the-tested-selection'),
 ]
+CONTROLS['C04'] += [
+    C('keyed multi-worker prefetch asks itself for keys() (CS)',
+      expr_replace('core', 'PrefetchDataset.__iter__', 'input_dataset.keys()', 'self.keys()'), 'CS', tier='quick'),
+]
+CONTROLS['C03'] += [
+    C('keyed multi-worker prefetch asks itself for keys() (CS)',
+      expr_replace('core', 'PrefetchDataset.__iter__', 'input_dataset.keys()', 'self.keys()'), 'CS'),
+]
